@@ -199,7 +199,8 @@ prop("C20",
      pure=["registry"],
      scripts=lambda tier, rnd: S.registry(rnd, 60 if tier == "quick" else 600) + S.api_races() +
      [x for x in S.multi_listener() if "dual" in x["id"]],
-     mc=lambda tier: [mc_api(4 if tier == "quick" else 5)],
+     mc=lambda tier: [mc_api(4)] if tier == "quick" else
+     [mc_api(4), mc_api(5, ops=("addPeer", "deletePeer", "serve", "close"))],
      nontrivial=lambda s, r: sum(1 for e in syscheck.events_of(r) if e["e"] == "ret") >= 3,
      rule="random registry operation sequences (AddPeer/DeletePeer/GetPeer/ListPeers/Serve/Close, inbound handshakes) before, "
           "during and after Serve; every return value must be the one Server's specification gives")
